@@ -1165,6 +1165,13 @@ var beByteTerm = regexp.MustCompile(`^byte\(\(?Uint(16|32|64)\((.+)\[(\d+):(\d+)
 // canonByteTerm rewrites byte(UintN(x[a:b]) >> 8k) - one byte of a big-endian
 // read of a window - as the element of x it is: x[a + N/8 - 1 - k].
 func canonByteTerm(t string) string {
+	// byte((uint16(a)<<8 | uint16(b)) >> 8) is a, byte(uint16(a)<<8 | uint16(b)) is b
+	if a, b, hi, ok := composedBE(t); ok {
+		if hi {
+			return a
+		}
+		return b
+	}
 	m := beByteTerm.FindStringSubmatch(t)
 	if m == nil {
 		return t
@@ -1180,4 +1187,67 @@ func canonByteTerm(t string) string {
 		return t
 	}
 	return fmt.Sprintf("%s[%d]", m[2], a+width/8-1-shift/8)
+}
+
+// stripParens removes pairs of parentheses that enclose the whole term.
+func stripParens(t string) string {
+	for len(t) >= 2 && t[0] == '(' && t[len(t)-1] == ')' {
+		depth := 0
+		whole := true
+		for i := 0; i < len(t)-1; i++ {
+			switch t[i] {
+			case '(':
+				depth++
+			case ')':
+				depth--
+			}
+			if depth == 0 {
+				whole = false
+				break
+			}
+		}
+		if !whole {
+			break
+		}
+		t = t[1 : len(t)-1]
+	}
+	return t
+}
+
+// composedBE recognises byte(E) and byte(E>>8) for E = uint16(a)<<8 | uint16(b).
+func composedBE(t string) (a, b string, hi, ok bool) {
+	if !strings.HasPrefix(t, "byte(") || !strings.HasSuffix(t, ")") {
+		return
+	}
+	e := stripParens(t[len("byte(") : len(t)-1])
+	if strings.HasSuffix(e, ">>8") {
+		hi = true
+		e = stripParens(strings.TrimSuffix(e, ">>8"))
+	}
+	// split at the top-level '|'
+	depth, cut := 0, -1
+	for i := 0; i < len(e); i++ {
+		switch e[i] {
+		case '(':
+			depth++
+		case ')':
+			depth--
+		case '|':
+			if depth == 0 {
+				cut = i
+			}
+		}
+	}
+	if cut < 0 {
+		return
+	}
+	l, r := stripParens(e[:cut]), stripParens(e[cut+1:])
+	if !strings.HasSuffix(l, "<<8") {
+		return
+	}
+	l = stripParens(strings.TrimSuffix(l, "<<8"))
+	if !strings.HasPrefix(l, "uint16(") || !strings.HasPrefix(r, "uint16(") || !strings.HasSuffix(l, ")") || !strings.HasSuffix(r, ")") {
+		return
+	}
+	return l[len("uint16(") : len(l)-1], r[len("uint16(") : len(r)-1], hi, true
 }
